@@ -2,7 +2,8 @@
 The emitted file is committed and is *the specification's* copy; `check lifecycle` compares it
 cell by cell with whatever tree is under /repo at check time."""
 import sys
-sys.path.insert(0, "/repo")
+import os
+sys.path.insert(0, os.environ.get("ORQUESTA_REPO", "/repo"))
 from orquesta import machines
 
 
